@@ -23,6 +23,8 @@ MUTANTS = [
     m("c11-tri-factor-not-inverted", "R2", "        inv_factor_vector = self.factor.inv @ vector", "        inv_factor_vector = self.factor @ vector"),
     m("c11-dense-grad-lad-forward", "R2", "    def grad_log_abs_det(self) -> NDArray:\n        return self.inv.array\n\n    def grad_quadratic_form_inv(self, vector: NDArray) -> NDArray:\n        inv_matrix_vector = self.inv @ vector\n        return -np.outer(inv_matrix_vector, inv_matrix_vector)", "    def grad_log_abs_det(self) -> NDArray:\n        return self.array\n\n    def grad_quadratic_form_inv(self, vector: NDArray) -> NDArray:\n        inv_matrix_vector = self.inv @ vector\n        return -np.outer(inv_matrix_vector, inv_matrix_vector)"),
     m("c11-product-grad-one-vector", "R2", "            self._pos_def_matrix @ (self._rect_matrix.T @ inv_matrix_vector),\n        )", "            self._pos_def_matrix @ self._rect_matrix.T,\n        )"),
+    m("c11-seed-woodbury-rewrite-drops-sign", "R1", "            2\n            * self._sign\n            * (self.inv @ (self.factor_matrix.array @ self.inner_pos_def_matrix))", "            2\n            * (self.pos_def_matrix.inv @ (self.factor_matrix.array @ self.capacitance_matrix.inv))"),
+    m("c11-twin-woodbury-rewrite-with-sign", None, "            2\n            * self._sign\n            * (self.inv @ (self.factor_matrix.array @ self.inner_pos_def_matrix))", "            2\n            * self._sign\n            * (self.pos_def_matrix.inv @ (self.factor_matrix.array @ self.capacitance_matrix.inv))", twin=True),
     m("c11-twin-factor-two", None, "        return np.diag(2 / self.factor.diagonal)", "        return 2 * np.diag(1 / self.factor.diagonal)", twin=True),
     m("c11-twin-outer-order", None, "        return -np.outer(inv_matrix_vector, inv_matrix_vector)", "        return np.outer(-inv_matrix_vector, inv_matrix_vector)", twin=True),
 ]
